@@ -322,6 +322,8 @@ def mode {α : Type} (zero : α) (eq : α → α → Bool) (ordered : List α) :
       if st.currObserved > st.maxObserved then { st with maxValue := st.currValue, maxObserved := st.currObserved } else st)
     (⟨0, zero, 0, zero⟩ : ModeState α)).maxValue
 
+/-- The exact instance.  `Rat` has no infinities: `maxVal` / `negMaxVal` (`±MaxFloat64`) stand in for the `±Inf`
+at which `Min` / `Max` start, and `numerical_minmax` assumes the samples within them, as every finite double is. -/
 def ratOps : NumOps Rat :=
   { add := (· + ·), sub := (· - ·), mul := (· * ·), div := (· / ·), ofNat := fun n => (n : Rat),
     lt := fun a b => decide (a < b), zero := 0,
